@@ -16,6 +16,12 @@ package lookups
 //@   pure
 //@   ensures implies(result, uf("safeName", bool, name))
 //@ end
+// the validator's string-level meaning, decided by a bounded stand-in only
+//@ func IsSafeLookupName @strings
+//@   props C19
+//@   note no proof obligations: this view only attaches the bounded stand-in (the primary contract above is the ASSUMED meaning the C19 proofs use)
+//@   bounded lookups/safelookupname_test.go Test_Bounded_IsSafeLookupName every string of up to 4 bytes over { / \ . a - _ }, alone and at the start / middle / end of a longer plain name (about 6200 names): accepted exactly when not empty, not . or .. and free of / and \ at every position
+//@ end
 
 // (C20, keyed store: a read returns the last written state) an overwriting
 // upload replaces the file: it is opened write-only and TRUNCATED, so nothing of
